@@ -13,7 +13,9 @@ RULE = ('E1: all 120 insertion orders of a 5-key table (keys chosen to '
         'of a 3-key table nested in an array nested in it (720), at every '
         'position a table occurs (encode.field_table, method argument, '
         'headers property, nested in array/table); all orders of every '
-        'sub-multiset of 1-4 keys; every frame of the C01/C02 corpus and '
+        'sub-multiset of 1-4 keys; all orders of every subset of 5 names '
+        'longer than 128 characters that collide after truncation; every '
+        'frame of the C01/C02 corpus and '
         'every C03 value encoded twice with a deep identity-and-content '
         'snapshot before/after. A case is (position, insertion order) or '
         '(frame, repeat); non-trivial = not the already-sorted order / not '
@@ -33,7 +35,7 @@ SELFTEST_TASK = ('perm', 0)
 
 def tasks(tier, seed):
     nkeys = 6 if tier == 'thorough' else 5
-    out = [('perm', i) for i in range(nkeys)] + [('subsets',)]
+    out = [('perm', i) for i in range(nkeys)] + [('subsets',), ('long',)]
     if tier == 'thorough':
         out += [('m',) + t for t in corpus.method_tasks(tier)]
     else:
@@ -174,6 +176,59 @@ def check_subsets(ctx):
                 base = base or got
 
 
+LONG = 'a' * 128
+LONG_KEYS = [LONG + 'x', LONG + 'y', LONG, 'b', LONG[:127] + 'é' + 'z']
+
+
+def check_long_keys(ctx):
+    """Names over 128 characters are truncated (documented); tables whose
+    long names share their first 128 characters must still encode the same
+    whatever the insertion order."""
+    p = lib.pamqp()
+    QD = spec_table.BY_NAME['Queue.Declare']
+    for r in range(2, len(LONG_KEYS) + 1):
+        for combo in itertools.combinations(range(len(LONG_KEYS)), r):
+            base = {}
+            for order in itertools.permutations(combo):
+                t = {LONG_KEYS[i]: i for i in order}
+                nested = {'outer': [t], 'zz': t}
+                ctx.case(('long', order), list(order) != sorted(order),
+                         sample=lambda: {'long_keys_order': list(order)})
+                encs = {
+                    'field_table': lambda: p.encode.field_table(t),
+                    'nested': lambda: p.encode.field_table(nested),
+                    'method argument': lambda: p.frame.marshal(
+                        p.commands.Queue.Declare(queue='q', arguments=t), 1),
+                }
+                for pos, enc in encs.items():
+                    try:
+                        got = enc()
+                        ctx.calls()
+                    except Exception as exc:  # noqa
+                        got = repr(exc).encode()
+                    ctx.valid()
+                    if pos == 'field_table':
+                        want = refcodec.enc_table(t)
+                    elif pos == 'nested':
+                        want = refcodec.enc_table(nested)
+                    else:
+                        want = refcodec.enc_method_frame(
+                            QD, (0, 'q', False, False, False, False, False,
+                                 t), 1)[0]
+                    first = base.setdefault(pos, got)
+                    if got != first or got != want:
+                        ctx.violation(
+                            'longkeys|{}|{}'.format(pos, order),
+                            '{}: table with colliding long names inserted '
+                            'in order {} encodes differently from order {} '
+                            '/ from the reference'.format(
+                                pos, list(order), sorted(order)),
+                            {'kind': 'long', 'order': list(order)},
+                            want.hex()[-120:], got.hex()[-120:])
+                    else:
+                        ctx.outcome('ok')
+
+
 def check_frame_twice(ctx, label, build, marshal, case):
     """build() -> object; marshal(obj) -> bytes.  Twice + non-mutation, and a
     freshly built equal object encodes identically."""
@@ -239,6 +294,8 @@ def run(task, ctx):
         check_orders(ctx, keys, task[1])
     elif kind == 'subsets':
         check_subsets(ctx)
+    elif kind == 'long':
+        check_long_keys(ctx)
     elif kind in ('m', 'm2'):
         if kind == 'm':
             it = ((m, vec, ch) for m, vec, ch, _i in
@@ -283,6 +340,8 @@ def replay(case, ctx):
             or ctx.violations
     elif kind == 'subset':
         check_subsets(ctx)
+    elif kind == 'long':
+        check_long_keys(ctx)
     elif kind == 'method':
         m = spec_table.BY_NAME[case['method']]
         vec = tuple(fromjson(case['vec']))
